@@ -104,7 +104,7 @@ func (s *OpenAPI3Exporter) GenerateOpenAPI3(app *syslwrapper.App) (*openapi3.T, 
 		v := app.Endpoints[name]
 		var method, path string
 		epPath := strings.Split(v.Path, " ")
-		if len(epPath) > 1 {
+		if len(epPath) > 1 && isHTTPMethod(epPath[0]) {
 			method = strings.Split(v.Path, " ")[0]
 			path = strings.Split(v.Path, " ")[1]
 		} else {
@@ -171,6 +171,15 @@ func (s *OpenAPI3Exporter) GenerateOpenAPI3(app *syslwrapper.App) (*openapi3.T, 
 	}
 
 	return spec, nil
+}
+
+// isHTTPMethod tells a REST endpoint ("GET /path") from a plain endpoint whose name contains a space.
+func isHTTPMethod(s string) bool {
+	switch s {
+	case "CONNECT", "DELETE", "GET", "HEAD", "OPTIONS", "PATCH", "POST", "PUT", "TRACE":
+		return true
+	}
+	return false
 }
 
 func (s *OpenAPI3Exporter) exportType(t *syslwrapper.Type) *openapi3.SchemaRef {
